@@ -348,6 +348,23 @@ func c19Sources(cfg Config, lim c19Limits) ([]ListSource, error) {
 		src := ListSource{Spec: &l}
 		if lr.Bool(0.3) { // a list that went through a pipeline of transformations first
 			src.Ops = genOps(lr)
+			// Fragment is quadratic in (duration / period): a cue of 100+ hours cut every second never finishes.
+			// That is an input the workload must not produce (C08/C10 territory), not something C19 is about.
+			extreme := false
+			for _, it := range l.Items {
+				if it.StartMs < 0 || it.EndMs > 36000000 || it.StartMs > 36000000 {
+					extreme = true
+				}
+			}
+			if extreme {
+				var ops []api.Op
+				for _, op := range src.Ops {
+					if op.Name != "fragment" && op.Name != "forceduration" {
+						ops = append(ops, op)
+					}
+				}
+				src.Ops = ops
+			}
 		}
 		srcs = append(srcs, src)
 	}
